@@ -13,6 +13,7 @@ DIT = 'include/osmium/diff_iterator.hpp'
 DOB = 'include/osmium/osm/diff_object.hpp'
 TS = 'include/osmium/osm/timestamp.hpp'
 
+CLSS = ['OSMObject', 'Node', 'Way', 'Relation', 'Area', 'Changeset', 'TagList', 'WayNodeList', 'RelationMemberList', 'OuterRing', 'InnerRing', 'ChangesetDiscussion']
 CBS = ['osm_object', 'node', 'way', 'relation', 'area', 'changeset', 'tag_list', 'way_node_list', 'relation_member_list',
        'outer_ring', 'inner_ring', 'changeset_discussion']
 
@@ -22,8 +23,10 @@ def prelude(repo):
             + cx.members_struct(repo, [(ITEM, 'Item')], 'Item') + 'typedef struct Item Item; typedef struct Item OSMEntity;\n'
             + '#define EXC_unknown_type (0x02000000 | EXC_runtime_error)\n'
             + 'enum { CB_none = 0, ' + ', '.join('CB_' + c for c in CBS) + ' };\n'
-            + 'int cb_log[4]; int cb_n;   /* ghost: the sequence of handler callbacks made */\n'
-            + '#define VERIF_CB(x) { if (cb_n < 4) cb_log[cb_n] = (x); cb_n = cb_n + 1; }\n' + SPEC_TABLE)
+            + 'enum { CLS_none = 0, ' + ', '.join('CLS_' + c for c in CLSS) + ' };\n'
+            + 'enum { Q_same = 0, Q_const, Q_mut };   /* const-ness of the reference handed to the callback: that of the item parameter / forced const / forced non-const */\n'
+            + 'int cb_log[4]; int cb_q[4]; int cb_cls[4]; int cb_n;   /* ghost: the sequence of handler callbacks made, with the static type of their argument */\n'
+            + '#define VERIF_CB(x, q, c) { if (cb_n < 4) { cb_log[cb_n] = (x); cb_q[cb_n] = (q); cb_cls[cb_n] = (c); } cb_n = cb_n + 1; }\n' + SPEC_TABLE)
 
 
 # specification table, written from the property sentence: "first the generic object callback and then exactly the
@@ -34,9 +37,18 @@ SPEC_TABLE = '''
   (t) == item_type_changeset ? CB_changeset : (t) == item_type_tag_list ? CB_tag_list : (t) == item_type_way_node_list ? CB_way_node_list : \\
   ((t) == item_type_relation_member_list || (t) == item_type_relation_member_list_with_full_members) ? CB_relation_member_list : \\
   (t) == item_type_outer_ring ? CB_outer_ring : (t) == item_type_inner_ring ? CB_inner_ring : (t) == item_type_changeset_discussion ? CB_changeset_discussion : CB_none)
+/* the class a callback takes (handler.hpp): "function objects ... see exactly the objects of the types they accept", const-ness included */
+#define SPEC_CLS(cb) ((cb) == CB_osm_object ? CLS_OSMObject : (cb) == CB_node ? CLS_Node : (cb) == CB_way ? CLS_Way : (cb) == CB_relation ? CLS_Relation : (cb) == CB_area ? CLS_Area : \\
+  (cb) == CB_changeset ? CLS_Changeset : (cb) == CB_tag_list ? CLS_TagList : (cb) == CB_way_node_list ? CLS_WayNodeList : (cb) == CB_relation_member_list ? CLS_RelationMemberList : \\
+  (cb) == CB_outer_ring ? CLS_OuterRing : (cb) == CB_inner_ring ? CLS_InnerRing : (cb) == CB_changeset_discussion ? CLS_ChangesetDiscussion : CLS_none)
+#define ARG_OK(k) (cb_cls[k] == SPEC_CLS(cb_log[k]) && (cb_q[k] == Q_same || cb_q[k] == Q_VARIANT))
 '''
 
-CB_RULE = [(r'std::forward<THandler>\(handler\)\.(\w+)\((?:static_cast<[^;]*?>\(item\)|item)\);', r'VERIF_CB(CB_\1)'),
+# the callback and the static type of its argument: class and const-ness of the cast (no cast: the item parameter itself)
+CB_RULE = [(r'std::forward<THandler>\(handler\)\.(\w+)\(static_cast<ConstIfConst<TItem, osmium::(\w+)>&>\(item\)\);', r'VERIF_CB(CB_\1, Q_same, CLS_\2)', '?'),
+           (r'std::forward<THandler>\(handler\)\.(\w+)\(static_cast<const osmium::(\w+)&>\(item\)\);', r'VERIF_CB(CB_\1, Q_const, CLS_\2)', '?'),
+           (r'std::forward<THandler>\(handler\)\.(\w+)\(static_cast<osmium::(\w+)&>\(item\)\);', r'VERIF_CB(CB_\1, Q_mut, CLS_\2)', '?'),
+           (r'std::forward<THandler>\(handler\)\.(\w+)\(item\);', r'VERIF_CB(CB_\1, Q_same, CLS_PARAM)', '?'),
            (r'osmium::item_type::(\w+)', r'item_type_\1')]
 U_type = Unit(ITEM, 'type', cls='Item', selftype='const struct Item')
 
@@ -72,9 +84,13 @@ for cname, sig, which, other in VARIANTS:
          '!(%s && !IS_OBJ(item->m_type)) || (verif_exc == 0 && cb_n == 1 && cb_log[0] == SPEC_OWN_CB(item->m_type))' % handled),
         ('post:anything else: no callback' + ('' if other == 'nothing' else ', unknown_type thrown'), 'ensures',
          '(%s) || (cb_n == 0 && verif_exc == %s)' % (handled, '0' if other == 'nothing' else 'EXC_unknown_type')),
-        ('frame', 'assigns', 'verif_exc, cb_n, __CPROVER_object_whole(cb_log)'),
+        ('post:every callback gets the item as the class it takes, with the const-ness of the item handed to the dispatcher (a non-const item reaches the non-const overloads)', 'ensures',
+         '(cb_n < 1 || ARG_OK(0)) && (cb_n < 2 || ARG_OK(1))'),
+        ('frame', 'assigns', 'verif_exc, cb_n, __CPROVER_object_whole(cb_log), __CPROVER_object_whole(cb_q), __CPROVER_object_whole(cb_cls)'),
     ]
-    PIPELINES.append(Pipeline('U1_' + cname, units=[U_type, u], prelude=prelude, contracts={cname: contract}, enforce=cname,
+    qv = 'Q_same' if which == 'all' else ('Q_const' if 'const' in cname else 'Q_mut')
+    var_prelude = (lambda q, c: (lambda repo: '#define Q_VARIANT %s\n#define CLS_PARAM %s\n' % (q, c) + prelude(repo)))(qv, 'CLS_OSMObject' if which == 'object' else 'CLS_none')
+    PIPELINES.append(Pipeline('U1_' + cname, units=[U_type, u], prelude=var_prelude, contracts={cname: contract}, enforce=cname,
                               harness='void harness(void) { const Item* it; %s(it); __CPROVER_assert(0, "canary"); }' % cname,
                               replay=('c20_dispatch', (lambda cn: (lambda cex, o: ['dispatch', cn, cex.field(cex.pointer_target('item'), 'm_type')]))(cname)),
                               note='all 2^16 item type values; loop-free, complete'))
